@@ -24,6 +24,12 @@ MANIFEST = dict(
          "reports exactly the outcome of the execution of the submitted task and leaves that outcome in the cache "
          "root; and PythonTask._run's binding of None / single / tuple / dict return values either provides every "
          "mandatory declared output or fails (bind_complete, bind_fails_when_not_provided). "
+         "C13_shell_nonzero_never_cached_as_success: the outcome of a shell body is shell_outcome(return code, "
+         "declared output files) as Native.execute + ShellOutputs._from_job compute it — for every return code other "
+         "than 0 (negative = killed by a signal included) the stored result is errored, the failure is reported and a "
+         "later submission executes again; code 0 with every mandatory output file present is a success. The return "
+         "codes a plain subprocess observes for the pool's shell tasks (-15, -9, 3, 126, 127, 255, 0) are passed into "
+         "Coq on every run. "
          "C13_error_not_served, C13_failure_reexecuted (the next submission under the same root executes again, "
          "whatever flags, caches and world), C13_error_reported. Two defects found with this property were "
          "repaired in /repo (stale Job._errored after a re-execution; dict return lacking a mandatory key stored as "
@@ -464,6 +470,142 @@ def run_binding(ctx, out):
     return out
 
 
+# ------------------------------------------------------------------------------------------------ shell return codes
+def _shellrc_runner(inp, outp):
+    """For every (shell pool task, flag up/down): the return code the command really gives (plain subprocess, no
+    pydra), which declared output files exist, and what pydra makes of it: errored?, what is stored, and whether a
+    second submission with the flag down executes the body again."""
+    import subprocess
+    from pydra.engine.submitter import Submitter
+    with open(inp) as f:
+        cases = json.load(f)
+    logf, flagdir = [None], [None]
+    build, hooks = _runner_pool13(logf, flagdir)
+    res = []
+    top = tempfile.mkdtemp(prefix="c13s-", dir="/tmp")
+    try:
+        for n, c in enumerate(cases):
+            base = os.path.join(top, "c%d" % n)
+            os.makedirs(os.path.join(base, "flags"))
+            os.environ["C11_FLAGS"] = os.path.join(base, "flags")
+            os.environ["C11_LOG"] = os.path.join(base, "log.txt")
+            open(os.environ["C11_LOG"], "w").close()
+            d = c["desc"]
+            flag = os.path.join(base, "flags", "_".join(str(x) for x in d))
+            if c["flagged"]:
+                open(flag, "w").close()
+            script = {"Sh": "sh.sh", "MF": "mf.sh", "ShF": "shf.sh"}[d[0]]
+            args = ["sh", os.path.join(SCRIPT_DIR, script), str(d[1])]
+            files = []
+            if d[0] == "MF":
+                ref_out = os.path.join(base, "ref_outfile")
+                args.append(ref_out)
+            elif d[0] == "ShF":
+                args.append(d[2])
+            rc = subprocess.run(args, stdout=subprocess.PIPE, stderr=subprocess.PIPE, cwd=base).returncode
+            if d[0] == "MF":
+                files = [[True, os.path.exists(ref_out)]]
+            ob = {"rc": rc, "files": files}
+            cache = os.path.join(base, "cache")
+
+            def bodies():
+                with open(os.environ["C11_LOG"]) as f_:
+                    return sum(1 for ln in f_ if ln.startswith("BODY"))
+
+            b0 = bodies()
+            try:
+                with Submitter(worker="debug", cache_root=cache) as sub:
+                    r1 = sub(build(d), raise_errors=False)
+                ob["errored1"] = bool(r1.errored)
+                ob["recorded1"] = bool(r1.errors) if r1.errored else None
+            except Exception as e:
+                ob["errored1"], ob["recorded1"] = True, None
+                ob["exc1"] = type(e).__name__ + ": " + str(e).splitlines()[0][:80]
+            st = c11._classify(os.path.join(cache, build(d)._checksum))
+            ob["stored1"] = st if isinstance(st, str) else st[0]
+            b1 = bodies()
+            if os.path.exists(flag):
+                os.unlink(flag)
+            try:
+                with Submitter(worker="debug", cache_root=cache) as sub:
+                    r2 = sub(build(d), raise_errors=False)
+                ob["errored2"] = bool(r2.errored)
+            except Exception as e:
+                ob["errored2"] = True
+            ob["second_executed"] = bodies() > b1
+            ob["first_executed"] = b1 > b0
+            res.append(ob)
+    finally:
+        shutil.rmtree(top, ignore_errors=True)
+    with open(outp, "w") as f:
+        json.dump(res, f)
+
+
+SHELLRC_EXTRA = r"""
+(* return code seen by a plain subprocess, declared output files (not optional, exists), and what pydra did:
+   first submission errored, stored as errored, second submission (flag down) executed the body, second errored *)
+Definition scase := (Z * list (bool * bool) * (bool * bool * bool * bool))%type.
+Definition shell_tie (c : scase) : bool :=
+  let '(rc, files, (err1, stored_err, exec2, err2)) := c in
+  let m := shell_outcome rc files 1 in
+  Bool.eqb (is_ok m) (negb err1) && Bool.eqb (is_ok m) (negb stored_err) &&
+  (* the model's history: a stored failure is executed again, a stored success is served *)
+  Bool.eqb exec2 (negb (is_ok m)) && negb err2.
+Definition shell_spec (c : scase) : bool :=
+  let '(rc, files, (err1, stored_err, exec2, err2)) := c in
+  if Z.eqb rc 0 then (negb (files_present files) || (negb err1 && negb stored_err))
+  else err1 && stored_err && exec2.
+"""
+
+
+def run_shellrc(ctx, out):
+    import subprocess
+    from .lib import coqio
+    from .lib.runner import Failure
+    cases = []
+    for d in [["Sh", 1], ["MF", 1]] + [["ShF", 1, m] for m in SHF_MODES]:
+        for flagged in (True, False):
+            cases.append({"desc": d, "flagged": flagged})
+    tmp = tempfile.mkdtemp(prefix="c13-", dir="/tmp")
+    try:
+        inp, outp = os.path.join(tmp, "si.json"), os.path.join(tmp, "so.json")
+        with open(inp, "w") as f:
+            json.dump(cases, f)
+        env = dict(os.environ, PYTHONPATH=coqio.VERIF + ":" + os.environ.get("VERIF_REPO", "/repo"), PYTHONHASHSEED="0",
+                   NO_ET="1", PYTHONDONTWRITEBYTECODE="1")
+        pr = subprocess.run(["timeout", "600", "/venv/bin/python", "-m", "harness.c13", "--shellrc", inp, outp], env=env,
+                            cwd=tmp, stdout=subprocess.PIPE, stderr=subprocess.STDOUT, text=True)
+        if pr.returncode != 0:
+            raise RuntimeError("shellrc runner failed: " + pr.stdout[-1500:])
+        with open(outp) as f:
+            obs = json.load(f)
+    finally:
+        shutil.rmtree(tmp, ignore_errors=True)
+    terms = []
+    for o in obs:
+        terms.append("(%s, %s, (%s, %s, %s, %s))" % (
+            coqio.z(o["rc"]), coqio.lst(["(%s, %s)" % (coqio.boolean(a), coqio.boolean(b)) for a, b in o["files"]]),
+            coqio.boolean(o["errored1"]), coqio.boolean(o["stored1"] == "err"), coqio.boolean(o["second_executed"]),
+            coqio.boolean(o["errored2"])))
+    res = coqio.run_cases(ctx.scratch, "c13shell", c11.IMPORTS, "scase", terms,
+                          {"tie": "shell_tie", "spec": "shell_spec"}, extra=SHELLRC_EXTRA)
+    out.evaluations += len(cases)
+    out.distinct_nontrivial += sum(1 for o in obs if o["rc"] != 0)
+    out.distribution["shell_return_codes_observed"] = sorted({o["rc"] for o in obs})
+    out.samples.append({"shell_return_codes": [{"task": c["desc"], "flag": c["flagged"], "rc": o["rc"],
+                                                "errored": o["errored1"], "stored": o["stored1"],
+                                                "second_submission_executed": o["second_executed"]}
+                                               for c, o in zip(cases, obs)][:6]})
+    for kind in ("spec", "tie"):
+        for i in res[kind]:
+            out.failures.append(Failure(case=cases[i], observed=obs[i],
+                                        expected="shell_outcome rc files: any non-zero return code (negative included) is a "
+                                                 "failure: stored errored, reported, executed again later",
+                                        kind=kind, note=("a shell command with a non-zero return code is not handled as a failure"
+                                                         if kind == "spec" else "shell return code model/impl")))
+    return out
+
+
 def gen13(rng, pool):
     return c11.gen_history(rng, pool, flaky_p=0.5, nflaky=(1, 2, 2, 3), p_plant=0.08, p_rerun=0.15, p_cf=0.25,
                            kinds=("empty", "jobonly", "zero"))
@@ -471,7 +613,8 @@ def gen13(rng, pool):
 
 def run(ctx):
     out = c11.run(ctx, prop="C13", pool=POOL13, gen=gen13, rule=RULE, budget=(20, 200))
-    return run_binding(ctx, out)
+    out = run_binding(ctx, out)
+    return run_shellrc(ctx, out)
 
 
 def replay(ctx, payload):
@@ -499,6 +642,9 @@ def replay(ctx, payload):
 if __name__ == "__main__":
     if len(sys.argv) == 4 and sys.argv[1] == "--run":
         c11.runner_main(sys.argv[2], sys.argv[3], _runner_pool13)
+        sys.exit(0)
+    if len(sys.argv) == 4 and sys.argv[1] == "--shellrc":
+        _shellrc_runner(sys.argv[2], sys.argv[3])
         sys.exit(0)
     if len(sys.argv) == 4 and sys.argv[1] == "--bind":
         _bind_runner(sys.argv[2], sys.argv[3])
